@@ -92,6 +92,16 @@ def setup():
     t = qp.tape.QuantumScript([qp.RX(0.1, 0), qp.CNOT([0, 1])], [qp.expval(qp.Z(0)), qp.sample(wires=[0])], shots=3)
     dev.execute([t])
     _ENV["ready"] = True
+    from simkit.core import Streams, derive_seed
+
+    n = 0
+    for i in range(400):  # warm lazily imported paths (thread backend excluded: no threads before fork)
+        case = gen_case(Streams(derive_seed("warm", i)), "quick")
+        if case["backend"] != "cf_threadpool":
+            run_case(case)
+            n += 1
+        if n >= 60:
+            break
 
 
 # ------------------------------------------------------------------------------------------------
